@@ -114,8 +114,8 @@ def c01(tier):
 # ------------------------------------------------------------------------------------------- C05
 @prop("C05",
       functions=["h3NeighborRotations", "directionForNeighbor", "_h3Rotate60ccw", "_h3Rotate60cw", "_h3RotatePent60ccw", "_h3LeadingNonZeroDigit", "_rotate60ccw", "_isBaseCellPentagon", "_baseCellIsCwOffset", "_isBaseCellPolarPentagon"],
-      bounds={"quick": "neighbour step closure/distinctness/symmetry: all valid cells of resolutions 0-6 and 15 x 6 directions",
-              "thorough": "all valid cells of all 16 resolutions x 6 directions; k=1 disks end to end at res 0-3"},
+      bounds={"quick": "neighbour step closure/distinctness/symmetry: all valid cells of resolutions 0-6 and 15 x 6 directions; k=1 through gridDiskDistances, gridDiskDistancesUnsafe, gridRingUnsafe (and gridDisk, gridDiskDistancesSafe at res 0) and areNeighborCells on every pair of cells: res 0-1",
+              "thorough": "all valid cells of all 16 resolutions x 6 directions; k=1 disks and areNeighborCells end to end at res 0-3"},
       outside="k>=2 beyond res 0, globe-wrapping disks, sufficiency of maxGridDiskSize at large k",
       assumptions=["cells are constructed as cell(r) + assume(isValidCell), justified by C01.H1"],
       stubs=[])
@@ -127,10 +127,29 @@ def c05(tier):
         for kind in ("CLOSURE", "DISTINCT", "SYMHEX", "SYMPENT"):
             j = J("nbr_%s_r%d" % (kind.lower(), r), "C05_nbr.c", ["-DRES=%d" % r, "-D" + kind], unwind=r + 2,
                   est=20 + 10 * r, tier=t, mem=("M" if kind == "SYMPENT" and r >= 3 else "S"), bound="all valid cells of resolution %d x all directions" % r, timeout=1800)
+            if kind == "SYMPENT" and r >= 9:
+                j["mem"] = "L"; j["tier"] = "thorough"; j["core"] = False
             if r in (0, 2, 5) or tier == "thorough":
-                js += with_witness(j, tier=t)
+                js += with_witness(j, tier=j["tier"])
             else:
                 js.append(j)
+    DL = {"_gridDiskDistancesInternal.0": 8, "_gridDiskDistancesInternal.1": 7, "gridDiskDistancesUnsafe.0": 8, "gridRingUnsafe.0": 3, "gridRingUnsafe.1": 3, "gridRingUnsafe.2": 7,
+          "memset.0": 9, "memset.1": 9, "memset.2": 2, "nb_of.0": 8}
+    for k in range(8):
+        DL["harness.%d" % k] = 10
+    for r in (0, 1, 2, 3):
+        t = "quick" if r <= 1 else "thorough"
+        for fn, nm in enumerate(("gridDisk", "gridDiskDistances", "gridDiskDistancesSafe", "gridDiskDistancesUnsafe", "gridRingUnsafe")):
+            if t == "quick" and r == 1 and fn in (0, 2):
+                tt = "thorough"
+            else:
+                tt = t
+            j = J("k1_%s_r%d" % (nm, r), "C05_disk.c", ["-DK1", "-DFN=%d" % fn, "-DRES=%d" % r], unwind=max(r + 2, 4), us=DL, est=300 + 300 * r, mem="M", tier=tt, timeout=3400, core=(r <= 1), bound="every cell of res %d, k=1" % r)
+            js += with_witness(j, tier=tt) if (r == 0 and fn == 1) else [j]
+        j = J("areNeighborCells_r%d" % r, "C05_disk.c", ["-DARENBR", "-DRES=%d" % r], unwind=max(r + 2, 4), us=DL, est=400 + 400 * r, mem="M", tier=t, timeout=3400, core=(r <= 1), bound="every pair of valid cells of res %d" % r)
+        js += with_witness(j, tier=t) if r == 1 else [j]
+    for r in (0, 2):
+        js.append(J("areNeighborCells_err_r%d" % r, "C05_disk.c", ["-DARENBR_ERR", "-DRES=%d" % r], unwind=max(r + 2, 4), us=DL, est=60, mem="M", bound="valid cell of res %d vs any 64-bit word" % r))
     return js
 
 
